@@ -110,8 +110,8 @@ static void op_misc(int inst, out_t *o) { uint8_t b[2048], b2[2048]; size_t n = 
 static void op_names(int inst, out_t *o) {
 	for (int f = 0; f < C20_NNAMES; f++) for (int v = 0; v < 340; v++) { int a = (v * 7 + inst * 13 + f) % 340 - 3; const char *sname = C20_NAMES[f].fn(a); if (sname) mix(o, sname, strlen(sname)); else o->rc++; }
 	for (int v = 0; v < 40; v++) { int a = 0x0300 + ((v * 3 + inst) % 8); const char *sname = tls_protocol_name(a); if (sname) mix(o, sname, strlen(sname)); a = 0xe000 + ((v * 5 + inst) % 0x20); sname = tls_cipher_suite_name(a); if (sname) mix(o, sname, strlen(sname)); a = 0x0700 + ((v + inst) % 16); sname = tls_signature_scheme_name(a); if (sname) mix(o, sname, strlen(sname)); }
-	char *t = NULL; size_t tl = 0; FILE *fp = open_memstream(&t, &tl); cert_spec lf; char cn[8]; snprintf(cn, sizeof cn, "p%d", inst); spec_leaf(&lf, cn, X509_KU_DIGITAL_SIGNATURE | X509_KU_KEY_ENCIPHERMENT); lf.eku = 4; uint8_t leaf[1024]; size_t ll = 0; o->rc += make_cert(&lf, &CK[inst % 4], &CK[5], "R", leaf, &ll); o->rc += x509_cert_print(fp, 0, 0, "certificate", leaf, ll);
-	{ uint8_t nm[128]; size_t nl = 0; make_name(nm, &nl, "crl"); uint8_t rev[200], *rp = rev; size_t rvl = 0; uint8_t sn[2] = { 1, (uint8_t)inst }; x509_revoked_cert_to_der(sn, 2, 1790000000 - 10, NULL, 0, &rp, &rvl); uint8_t b[1024], *p = b; size_t n = 0; o->rc += x509_crl_sign_to_der(X509_version_v2, OID_sm2sign_with_sm3, nm, nl, 1790000000 - 100, 1790000000 + 1000, rev, rvl, NULL, 0, &CK[5], SM2_DEFAULT_ID, 16, &p, &n); o->rc += x509_crl_print(fp, 0, 0, "crl", b, n);
+	char *t = NULL; size_t tl = 0; FILE *fp = open_memstream(&t, &tl); cert_spec lf; char cn[8]; snprintf(cn, sizeof cn, "p%d", inst); spec_leaf(&lf, cn, X509_KU_DIGITAL_SIGNATURE | X509_KU_KEY_ENCIPHERMENT); lf.eku = 4; lf.nb -= (time_t)inst * 86400 * 37 + 3600 * inst; lf.na += (time_t)inst * 86400 * 11 + 61 * inst; /* dates differ between instances: printers that go through a shared result buffer show it */ uint8_t leaf[1024]; size_t ll = 0; o->rc += make_cert(&lf, &CK[inst % 4], &CK[5], "R", leaf, &ll); o->rc += x509_cert_print(fp, 0, 0, "certificate", leaf, ll);
+	{ uint8_t nm[128]; size_t nl = 0; make_name(nm, &nl, "crl"); uint8_t rev[200], *rp = rev; size_t rvl = 0; uint8_t sn[2] = { 1, (uint8_t)inst }; x509_revoked_cert_to_der(sn, 2, 1790000000 - 10, NULL, 0, &rp, &rvl); uint8_t b[1024], *p = b; size_t n = 0; o->rc += x509_crl_sign_to_der(X509_version_v2, OID_sm2sign_with_sm3, nm, nl, 1790000000 - 100 - 86400 * 29 * inst, 1790000000 + 1000 + 86400 * 13 * inst, rev, rvl, NULL, 0, &CK[5], SM2_DEFAULT_ID, 16, &p, &n); o->rc += x509_crl_print(fp, 0, 0, "crl", b, n);
 	  p = b; n = 0; o->rc += x509_req_sign_to_der(X509_version_v1, nm, nl, &CK[inst % 4], (const uint8_t *)"", 0, OID_sm2sign_with_sm3, &CK[inst % 4], SM2_DEFAULT_ID, 16, &p, &n); o->rc += x509_req_print(fp, 0, 0, "req", b, n); }
 	{ CMS_CERTS_AND_KEY sg = { leaf, ll, &CK[inst % 4] }; uint8_t *cms = (uint8_t *)malloc(4096); size_t n = 0; o->rc += cms_sign(cms, &n, &sg, 1, OID_cms_data, MSG, 30 + inst, NULL, 0); o->rc += cms_print(fp, 0, 0, "cms", cms, n); free(cms); }
 	{ uint8_t b[300], *p = b; size_t n = 0; sm2_private_key_info_to_der(&CK[inst % 4], &p, &n); o->rc += sm2_private_key_info_print(fp, 0, 0, "key", b, n); uint32_t nodes[8] = { 1, 2, 156, 10197, 1, 301, (uint32_t)inst + 1 }; o->rc += asn1_object_identifier_print(fp, 0, 0, "oid", NULL, nodes, 7); }
@@ -158,6 +158,15 @@ RW(1) RW(2) RW(4) RW(8) RW(16)
 void __tsan_init(void) {} void __tsan_func_entry(void *p) { (void)p; } void __tsan_func_exit(void) {} void __tsan_vptr_update(void **a, void *b) { (void)a; (void)b; } void __tsan_vptr_read(void **a) { (void)a; }
 void __tsan_read_range(void *a, unsigned long n) { on_access((uintptr_t)a, n, 0); } void __tsan_write_range(void *a, unsigned long n) { on_access((uintptr_t)a, n, 1); }
 
+/* libc functions that answer through static storage (ctime, asctime, gmtime, localtime, strerror, strtok): libc is not instrumented, so the scheduler
+   would never see the shared buffer. They are modelled here: the result lives in a named harness global, the write is an access like any other
+   (reported as shared writable state, becomes a scheduling point), and there is a second point when the function returns - between a task's call and
+   its use of the result. A library that calls one of them on behalf of independent objects shows up as a differing result under some schedule. */
+char libc_static_result_of_ctime[32]; struct tm libc_static_result_of_gmtime; char libc_static_result_of_strerror[96];
+char *ctime(const time_t *t) { on_access((uintptr_t)libc_static_result_of_ctime, 26, 1); IGN++; char b[32]; ctime_r(t, b); for (int i = 0; i < 26; i++) ((volatile char *)libc_static_result_of_ctime)[i] = b[i]; IGN--; on_access((uintptr_t)libc_static_result_of_ctime, 26, 0); return libc_static_result_of_ctime; }
+char *asctime(const struct tm *tm) { on_access((uintptr_t)libc_static_result_of_ctime, 26, 1); IGN++; char b[32]; asctime_r(tm, b); for (int i = 0; i < 26; i++) ((volatile char *)libc_static_result_of_ctime)[i] = b[i]; IGN--; on_access((uintptr_t)libc_static_result_of_ctime, 26, 0); return libc_static_result_of_ctime; }
+struct tm *gmtime(const time_t *t) { on_access((uintptr_t)&libc_static_result_of_gmtime, sizeof(struct tm), 1); IGN++; struct tm b; gmtime_r(t, &b); libc_static_result_of_gmtime = b; IGN--; on_access((uintptr_t)&libc_static_result_of_gmtime, sizeof(struct tm), 0); return &libc_static_result_of_gmtime; }
+struct tm *localtime(const time_t *t) { on_access((uintptr_t)&libc_static_result_of_gmtime, sizeof(struct tm), 1); IGN++; struct tm b; localtime_r(t, &b); libc_static_result_of_gmtime = b; IGN--; on_access((uintptr_t)&libc_static_result_of_gmtime, sizeof(struct tm), 0); return &libc_static_result_of_gmtime; }
 void *__wrap_memcpy(void *d, const void *s, size_t n) { on_access((uintptr_t)s, n, 0); on_access((uintptr_t)d, n, 1); return __real_memcpy(d, s, n); }
 void *__wrap_memmove(void *d, const void *s, size_t n) { on_access((uintptr_t)s, n, 0); on_access((uintptr_t)d, n, 1); return __real_memmove(d, s, n); }
 void *__wrap_memset(void *d, int c, size_t n) { on_access((uintptr_t)d, n, 1); return __real_memset(d, c, n); }
@@ -226,6 +235,12 @@ int main(int argc, char **argv) { vh_init(argc, argv); if (!freopen("/dev/null",
 /* ======================= (B) free-running threads under the real ThreadSanitizer ======================= */
 static void wait_hook(int pipe_id) { (void)pipe_id; sched_yield(); }
 static pthread_barrier_t BAR;
+/* the same models in the free-running pass: the result buffers are harness globals that the real ThreadSanitizer watches */
+char libc_static_result_of_ctime[32]; struct tm libc_static_result_of_gmtime;
+char *ctime(const time_t *t) { char b[32]; ctime_r(t, b); memcpy(libc_static_result_of_ctime, b, 26); return libc_static_result_of_ctime; }
+char *asctime(const struct tm *tm) { char b[32]; asctime_r(tm, b); memcpy(libc_static_result_of_ctime, b, 26); return libc_static_result_of_ctime; }
+struct tm *gmtime(const time_t *t) { struct tm b; gmtime_r(t, &b); libc_static_result_of_gmtime = b; return &libc_static_result_of_gmtime; }
+struct tm *localtime(const time_t *t) { struct tm b; localtime_r(t, &b); libc_static_result_of_gmtime = b; return &libc_static_result_of_gmtime; }
 static void *free_thread(void *arg) { int t = (int)(intptr_t)arg; ME = t; pthread_barrier_wait(&BAR); run_task_body(t); if (TASK[t].role) pipe_close_peer(3000 + TASK[t].pipe); return NULL; }
 static void run_free(void) { pipes_reset(); pthread_t th[MAXT * 4]; pthread_barrier_init(&BAR, NULL, NT); for (int t = 0; t < NT; t++) pthread_create(&th[t], NULL, free_thread, (void *)(intptr_t)t); for (int t = 0; t < NT; t++) pthread_join(th[t], NULL); pthread_barrier_destroy(&BAR); }
 typedef struct { int ops[16]; int n; } fcombo; static fcombo FC; static out_t FOUT[MAXT], FREF[MAXT];
